@@ -17,6 +17,7 @@ import TlxVerif.Proofs.C19Trim
 import TlxVerif.Proofs.C19Contains
 import TlxVerif.Proofs.C19Replace
 import TlxVerif.Proofs.C19Lev
+import TlxVerif.Proofs.C19Erase
 namespace TlxVerif.C19
 open TlxVerif.C18 (Bytes npos)
 open TlxVerif.C18
@@ -409,11 +410,14 @@ def lev_front_statement : Prop := ∀ (eq : UInt8 → UInt8 → Bool) (a b : Byt
 
 /-! ## erase_all in place -/
 
-/-- the in-place overload (scanning from the back with find_last_of / find_last_not_of) removes
-exactly the bytes of the drop set, like the copying overload -/
-def erase_all_inplace_statement : Prop :=
-  ∀ s drop : Bytes, s.length < npos → eraseAllInplace s drop = s.filter (fun c => !drop.contains c)
--- OPEN: erase_all_inplace_statement — the loop invariant (everything behind pos1 is already free of drop bytes) is not formalised; the in-place and copying overloads are compared on every `erase` line of the correspondence and against Python's bytes.translate
+/-- the in-place overload (scanning from the back with `find_last_of` / `find_last_not_of`,
+erasing one run of drop bytes per iteration) removes exactly the bytes of the drop set, like the
+copying overload (`erase_all_copy_eq`) -/
+theorem erase_all_inplace_eq (s drop : Bytes) (hsz : s.length < npos) :
+    eraseAllInplace s drop = s.filter (fun c => !drop.contains c) :=
+  eraseAllInplace_eq s drop hsz
+
+example : eraseAllInplace [97, 32, 32, 98, 32] [32] = [97, 98] := by decide
 
 /-! ## The defects of the pinned tree, as machine-checked facts about the pre-fix transliterations -/
 
